@@ -4,7 +4,7 @@ import Verif.Model.SigMask
 namespace Verif.Drv.Sig
 open Verif.SigMask
 
-def sigs : List Nat := [10, 12, 28]
+def sigs : List Nat := [10, 12, 28, 29, 17]
 /-- a signal the application blocks itself and the source is never told about (SIGURG) -/
 def foreignSig : Nat := 23
 
